@@ -306,5 +306,5 @@ META = {
             "(finding limiter-latency-not-counted). Trusted: Coq kernel, extraction, routing_drv (uses private access to call "
             "get_local_route), the Python generator/encoder.",
     "technique": "Coq proof over abstract local routes + extracted-model correspondence instantiated with the zones' own answers",
-    "claimed": False,
+    "claimed": True,
 }
